@@ -61,8 +61,8 @@ def cases(tier, seed):
         add(graphs.graphs(2, 2, kinds=["ref", "arr", "inl", "allof"], req_flags=(0,), menus=("neutral",)), L)
         add(graphs.graphs(3, 1, kinds=["ref", "arr"] if tier == "quick" else ["ref", "arr", "inl"], req_flags=(0,), menus=("prefix",)), L)
         add(graphs.graphs(3, 2, kinds=["ref"], req_flags=(0,), menus=("neutral",), orders="all" if tier != "quick" else "one"), L)
-    for L in (3, 10, 150):
-        for depth in sorted({L - 1, L, L + 1, 2 * L, 400}):
+    for L in (3, 10, 150, None):   # None: the variable is not set, the generator's own default limit applies
+        for depth in sorted({(L or 150) - 1, (L or 150), (L or 150) + 1, 2 * (L or 150), 400}):
             for k in CHAIN_KINDS:
                 out.append({"kind": "chain", "edge": k, "named": True, "depth": depth, "L": L})
                 if k != "ref":
@@ -372,9 +372,9 @@ def run_case(case):
         if case["kind"] == "chain":
             ucc = mon.ctx.unified_cycle_context
             cut = bool(ucc.depth_exceeded_schemas)
-            if case["depth"] >= 2 * case["L"] + 2 and case["named"] and not cut:
+            if case["depth"] >= 2 * (case["L"] or 150) + 2 and case["named"] and not cut:
                 add("limit", "no depth placeholder although the chain is more than twice the limit", f"depth_exceeded={sorted(ucc.depth_exceeded_schemas)}")
-            if case["depth"] * 3 + 3 < case["L"] and cut:
+            if case["depth"] * 3 + 3 < (case["L"] or 150) and cut:
                 add("limit", "depth placeholder although nesting is far below the limit", f"depth_exceeded={sorted(ucc.depth_exceeded_schemas)}")
     # dedupe per signature
     seen = set()
